@@ -51,6 +51,40 @@ PROPS = {
 }
 
 
+class CaseTimeout(BaseException):
+    """one case ran longer than CASE_TIMEOUT seconds (an endless loop in the code under test, or in the harness)"""
+
+
+CASE_TIMEOUT = int(os.environ.get("VERIF_CASE_TIMEOUT", "300"))
+try:  # `kill -USR1 <worker pid>` prints where a worker is (development aid)
+    import faulthandler
+    import signal as _signal
+
+    faulthandler.register(_signal.SIGUSR1, all_threads=True)
+except Exception:
+    pass
+
+
+def _with_watchdog(fn, case, mod):
+    """run one case under an alarm: a case that does not come back is reported as a harness error together with the
+    case (exit 2, never a VIOLATION line: a time limit says nothing about the property), instead of stalling the check"""
+    import signal
+
+    def on_alarm(signum, frame):
+        raise CaseTimeout("case did not finish within the case time limit: %s" % json.dumps(case, default=str)[:2000])
+
+    try:
+        old = signal.signal(signal.SIGALRM, on_alarm)
+    except ValueError:  # not in the main thread
+        return fn()
+    signal.alarm(getattr(mod, "CASE_TIMEOUT", CASE_TIMEOUT))
+    try:
+        return fn()
+    finally:
+        signal.alarm(0)
+        signal.signal(signal.SIGALRM, old)
+
+
 class StopCollect(KeyboardInterrupt):
     """Raised to leave a Hypothesis run when the time budget is used up
     (KeyboardInterrupt subclasses pass through Hypothesis untouched)."""
@@ -165,7 +199,7 @@ class Ctx:
             raise StopCollect()
         self.cases += 1
         try:
-            out = self.mod.evaluate(case, self.env)
+            out = _with_watchdog(lambda: self.mod.evaluate(case, self.env), case, self.mod)
         except StopCollect:
             raise
         except Exception:
